@@ -90,8 +90,11 @@ where
         T2: DualNum<F2>,
         DefaultAllocator: Allocator<R, C>,
     {
-        self.0
-            .as_ref()
+        let Some(eps) = self.0.as_ref() else {
+            // an absent derivative maps to an absent derivative (it is a constant, not a failure)
+            return Some(Derivative::none());
+        };
+        Some(eps)
             .and_then(move |eps| {
                 let (nrows, ncols) = eps.shape_generic();
                 let mut res: Matrix<MaybeUninit<T2>, R, C, _> = Matrix::uninit(nrows, ncols);
